@@ -191,15 +191,18 @@ pub fn split_a2ml(cx: &mut Cx, items: &mut [Item], dir: &str, st: &mut SplitStat
                     let (path, rel) = if sub { (format!("{dir}/{subdir}/{fname}"), format!("{subdir}/{fname}")) } else { (format!("{dir}/{fname}"), fname.clone()) };
                     let backslash = sub && cx.tape.chance(1, 3);
                     let name = if backslash { rel.replace('/', "\\") } else { rel };
-                    let ri = RawInc {
-                        before: text[..a].to_string(),
-                        name,
-                        quoted,
-                        path,
-                        content: text[a..b].to_string(),
+                    // sometimes the included file ends in a line comment without a final line break and the including
+                    // text goes on in the same line: the directive stands for the tokens of the file, so neither may
+                    // swallow or fuse with what follows
+                    let tight = cx.tape.chance(1, 4);
+                    let (content, after) = if tight {
+                        cx.probe("a2ml-include-file-ends-in-line-comment-without-line-break");
+                        (format!("{} // end of the included part", text[a..b].trim_end()), format!(" {}", text[b..].trim_start()))
+                    } else {
                         // an unquoted name ends at whitespace
-                        after: format!("\n{}", &text[b..]),
+                        (text[a..b].to_string(), format!("\n{}", &text[b..]))
                     };
+                    let ri = RawInc { before: text[..a].to_string(), name, quoted, path, content, after };
                     n.body[0] = Item::RawInc(Box::new(ri));
                     return true;
                 }
@@ -466,7 +469,27 @@ impl Scenario for C16Includes {
         let (model, diags) = match (loaded, reference) {
             (Ok((m, d)), Ok((rm, rd))) => {
                 let mm = merged(cx, &m)?;
-                let eq = guarded(cx, "no-panic", "model comparison", || mm == rm)?;
+                let eq = guarded(cx, "no-panic", "model comparison", || {
+                    if mm == rm {
+                        return true;
+                    }
+                    if !a2ml_inc {
+                        return false;
+                    }
+                    // with an A2ML-level include the merged A2ML text is compared up to white space: whether the spliced
+                    // text is separated from its surroundings by a line break is a choice, and the property says nothing
+                    // about it (T3 decides whether the merged text still means the same)
+                    let strip = |f: &A2lFile| {
+                        let mut c = f.clone();
+                        for module in &mut c.project.module {
+                            if let Some(a2ml) = &mut module.a2ml {
+                                a2ml.a2ml_text.retain(|ch| !ch.is_ascii_whitespace());
+                            }
+                        }
+                        c
+                    };
+                    strip(&mm) == strip(&rm)
+                })?;
                 if !eq {
                     return Err(cx.fail("T1", "include-not-transparent", format!("load(main) differs from loading the flattened text: {}", crate::c01::model_diff(&rm, &mm))));
                 }
